@@ -92,7 +92,7 @@ type c16Mgr struct {
 	cfg c16MgrCfg
 	m   *connIDManager
 	c16MgrBounds
-	twice   bool // sticky: the manager stored one sequence number in two places at some point
+	twice bool // sticky: the manager stored one sequence number in two places at some point
 
 	// harness side of the callbacks
 	tokens   map[protocol.StatelessResetToken]bool
